@@ -30,3 +30,18 @@ for fn, props, unwind, note in [
     OBLS.append(Obl('C01.%s.exact' % fn, props, 'P#', 'auto', roots=[fn], specs={fn: fn + '.spec'}, enforce=fn,
                     defines=['FN=' + fn], includes=PINC, unwind=unwind, timeout=300, note=note + '; input of any length (symbolic-size object), loops bounded by the function\'s own length tests and fully unwound',
                     enums=ENUM_SCHEME if 'scheme' in fn else ()))
+
+for fn in ('find_authority_delimiter', 'find_authority_delimiter_special'):
+    both('C01.%s.first' % fn, ['C01', 'C02'], 'auto', roots=[fn], specs={fn: fn + '.spec'}, enforce=fn, loop_contracts=True, includes=INC,
+         note='returns the least index holding an authority delimiter (@ / ? and \\ for special), else size')
+both('C01.path_signature.covers', ['C01', 'C11', 'C02'], 'auto', roots=['path_signature'], specs={'path_signature': 'path_signature.spec'},
+     enforce='path_signature', loop_contracts=True, includes=INC,
+     note='every byte\'s path_signature_table flags are contained in the result; 8-byte unrolled loop + tail')
+for fn in ('contains_forbidden_domain_code_point_or_upper', 'contains_forbidden_domain_code_point'):
+    OBLS.append(Obl('C01.%s.covers' % fn, ['C01', 'C10', 'C02'], 'Pinf', 'auto', roots=[fn], specs={fn: fn + '.spec'}, enforce=fn,
+                    loop_contracts=True, includes=INC, solver='kissat', timeout=600,
+                    note='result contains the class of every byte (4-byte unrolled loop + tail), any length'))
+
+both('C01.has_tabs_or_newline.complete@sse2', ['C01', 'C18', 'C02'], 'auto', roots=['has_tabs_or_newline'],
+     specs={'has_tabs_or_newline': 'has_tabs_or_newline.spec'}, enforce='has_tabs_or_newline', loop_contracts=True, includes=INC,
+     note='returns false only if no tab/LF/CR occurs anywhere (SSE2 kernel: aligned blocks + overlapping tail; short inputs via any_of)')
